@@ -16,7 +16,7 @@ import LP.Props.AllVariants
   3  `lock_terms_frozen` (`run` form, every variant), `lock_terms_frozen_step`,
      `lock_terms_are_deployment_args`; `no_lock_call_without_lock(_run)`: the six variants without a
      lock never make a lock call; `lock_calls_only_from_claims`: in every variant only `claim` can
-  4  a winner's cumulative receipts.  `runLog hash s hist` (LP/Proofs/LockedGuarClaim.lean) is the list
+  4  a winner's cumulative receipts.  `lk_runLog hash s hist` (LP/Proofs/LockedGuarClaim.lean) is the list
      of accepted transactions `(state it ran in, env, call, outputs)` of a history (mirrors `run`);
      `lockedFor a locks` sums the lock calls with destination `a`, `directTo lp a xfers` the direct
      transfers of the fungible token `lp` to `a`; `received`, `totalReceived` add them up over one
@@ -224,9 +224,9 @@ theorem no_lock_call_without_lock (hash : List Nat → List Nat) (s : State) (e 
 /-- ... along any history: no entry of the log of accepted transactions carries a lock call -/
 theorem no_lock_call_without_lock_run (hash : List Nat → List Nat) (s : State)
     (hv : s.variant.hasLock = false) (hist : List (Env × Call)) :
-    ∀ x ∈ runLog hash s hist, x.2.2.2.locks = [] := by
+    ∀ x ∈ lk_runLog hash s hist, x.2.2.2.locks = [] := by
   intro x hx
-  obtain ⟨h1, h2, s', _, k2, k3⟩ := runLog_mem hash hist s x hx
+  obtain ⟨h1, h2, s', _, k2, k3⟩ := lk_runLog_mem hash hist s x hx
   refine no_lock_call_without_lock hash x.1 x.2.1 x.2.2.1 s' x.2.2.2 ?_ k3
   rw [k2, (lock_terms_frozen hash s h1).2.2.2]
   exact hv
@@ -280,11 +280,11 @@ theorem receipts_per_transaction (hash : List Nat → List Nat) (v : Variant) (h
 theorem winner_total_receipts (hash : List Nat → List Nat) (v : Variant) (hv : LockedVariant v)
     (s : State) (r : Nat) (h : ReachOf hash v s r) (hist : List (Env × Call)) (a : Nat)
     (ha1 : a ≠ s.owner) (ha2 : a ≠ s.lockAddr) :
-    totalReceived s.lpTok a (runLog hash s hist) =
-      (match (runLog hash s hist).find? (isClaimBy a) with
+    totalReceived s.lpTok a (lk_runLog hash s hist) =
+      (match (lk_runLog hash s hist).find? (isClaimBy a) with
        | some x => x.1.perTicket * winCountOf x.1 a
        | none => 0) ∧
-    ((runLog hash s hist).filter (isClaimBy a)).length ≤ 1 :=
+    ((lk_runLog hash s hist).filter (isClaimBy a)).length ≤ 1 :=
   lk_total_received hash a hist s (static_of_reach hash v hv s r h) ha1 ha2
 
 /-- ... with the claim exhibited: if the history is `h1`, then `a`'s accepted `claim`, then `h2`,
@@ -295,11 +295,11 @@ theorem winner_total_receipts_of_claim (hash : List Nat → List Nat) (v : Varia
     (hv : LockedVariant v) (s : State) (r : Nat) (h : ReachOf hash v s r) (a : Nat)
     (ha1 : a ≠ s.owner) (ha2 : a ≠ s.lockAddr) (h1 h2 : List (Env × Call)) (e : Env) (s2 : State)
     (o : Out) (hca : e.caller = a) (hs : step hash (run hash s h1) e .claim = .ok (s2, o)) :
-    totalReceived s.lpTok a (runLog hash s (h1 ++ (e, .claim) :: h2))
+    totalReceived s.lpTok a (lk_runLog hash s (h1 ++ (e, .claim) :: h2))
       = (run hash s h1).perTicket * winCountOf (run hash s h1) a ∧
     (s.deposited = true → (run hash s h1).perTicket = s.perTicket) ∧
-    (∀ x ∈ runLog hash s h1, isClaimBy a x = false) ∧
-    (∀ x ∈ runLog hash s2 h2, isClaimBy a x = false) ∧
+    (∀ x ∈ lk_runLog hash s h1, isClaimBy a x = false) ∧
+    (∀ x ∈ lk_runLog hash s2 h2, isClaimBy a x = false) ∧
     (∀ e2 : Env, e2.caller = a → ∃ err, step hash (run hash s2 h2) e2 .claim = .error err) := by
   have hS := static_of_reach hash v hv s r h
   obtain ⟨k1, k2, k3⟩ := lk_total_of_claim hash a s hS ha1 ha2 h1 h2 e s2 o hca hs
@@ -312,8 +312,8 @@ theorem winner_total_receipts_of_claim (hash : List Nat → List Nat) (v : Varia
 theorem winner_total_receipts_no_claim (hash : List Nat → List Nat) (v : Variant)
     (hv : LockedVariant v) (s : State) (r : Nat) (h : ReachOf hash v s r) (hist : List (Env × Call))
     (a : Nat) (ha1 : a ≠ s.owner) (ha2 : a ≠ s.lockAddr)
-    (hno : ∀ x ∈ runLog hash s hist, isClaimBy a x = false) :
-    totalReceived s.lpTok a (runLog hash s hist) = 0 :=
+    (hno : ∀ x ∈ lk_runLog hash s hist, isClaimBy a x = false) :
+    totalReceived s.lpTok a (lk_runLog hash s hist) = 0 :=
   lk_total_no_claim hash a hist s (static_of_reach hash v hv s r h) ha1 ha2 hno
 
 /-! ### non-vacuity
@@ -445,13 +445,13 @@ def gHist : List (Env × Call) :=
 
 /-- the totals, evaluated: 7 receives `1000 × 2`, 8 nothing; the lock contract 77 itself receives
     the locked 500 — the reason for the side condition `a ≠ lockAddr` -/
-example : (runLog id g7 gHist).length = 3 ∧
-    totalReceived 1 7 (runLog id g7 gHist) = 2000 ∧ totalReceived 1 8 (runLog id g7 gHist) = 0 ∧
-    totalReceived 1 77 (runLog id g7 gHist) = 500 := by
+example : (lk_runLog id g7 gHist).length = 3 ∧
+    totalReceived 1 7 (lk_runLog id g7 gHist) = 2000 ∧ totalReceived 1 8 (lk_runLog id g7 gHist) = 0 ∧
+    totalReceived 1 77 (lk_runLog id g7 gHist) = 500 := by
   refine ⟨by decide +kernel, by decide +kernel, by decide +kernel, by decide +kernel⟩
 
 /-- `winner_total_receipts_of_claim` on this history (`h1 = []`, the claim of 7, `h2` = the rest) -/
-example : totalReceived g7.lpTok 7 (runLog id g7 gHist) = g7.perTicket * winCountOf g7 7 ∧
+example : totalReceived g7.lpTok 7 (lk_runLog id g7 gHist) = g7.perTicket * winCountOf g7 7 ∧
     g7.perTicket * winCountOf g7 7 = 2000 := by
   obtain ⟨o, ho⟩ := stOf_step_v1 (x := step id g7 { caller := 7, round := 15, epoch := 3 } .claim) rfl g7
   have ho' : step id (run id g7 []) { caller := 7, round := 15, epoch := 3 } .claim = .ok (g8, o) := ho
@@ -463,13 +463,13 @@ example : totalReceived g7.lpTok 7 (runLog id g7 gHist) = g7.perTicket * winCoun
     withdraws, 7 claims again (rejected).  7 receives `1000 × 2`; the owner 1 receives the surplus
     `1000` — the reason for the side condition `a ≠ owner` -/
 example :
-    totalReceived LP.PL.l5.lpTok 7 (runLog id LP.PL.l5
+    totalReceived LP.PL.l5.lpTok 7 (lk_runLog id LP.PL.l5
       [({ caller := 7, round := 15, epoch := 3 }, .claim), ({ caller := 1, round := 16, epoch := 3 }, .claimPayment),
        ({ caller := 7, round := 17, epoch := 3 }, .claim)]) = 2000 ∧
-    ((runLog id LP.PL.l5
+    ((lk_runLog id LP.PL.l5
       [({ caller := 7, round := 15, epoch := 3 }, .claim), ({ caller := 1, round := 16, epoch := 3 }, .claimPayment),
        ({ caller := 7, round := 17, epoch := 3 }, .claim)]).filter (isClaimBy 7)).length ≤ 1 ∧
-    totalReceived 1 1 (runLog id LP.PL.l5
+    totalReceived 1 1 (lk_runLog id LP.PL.l5
       [({ caller := 7, round := 15, epoch := 3 }, .claim), ({ caller := 1, round := 16, epoch := 3 }, .claimPayment),
        ({ caller := 7, round := 17, epoch := 3 }, .claim)]) = 1000 := by
   have h := winner_total_receipts id .locked (Or.inl rfl) LP.PL.l5 11
